@@ -60,6 +60,14 @@ func Corrupt(proto string, frame []byte, ch *sim.Choices) ([]byte, string) {
 		} else if len(f) >= 22 {
 			fields = []lenField{{14, 2, "classLen"}, {16, 2, "headerLen"}, {18, 4, "contentLen"}}
 		}
+	case "dubbo-thrift":
+		if len(f) >= 4+9+4 {
+			fields = []lenField{{0, 4, "messageLen"}, {6, 4, "innerMessageLen"}, {10, 2, "headerLen"}, {13, 4, "serviceNameLen"}}
+		}
+	case "tars":
+		if len(f) >= 8 {
+			fields = []lenField{{0, 4, "totalLen"}, {4, 1, "firstHead"}, {5, 1, "firstValue"}}
+		}
 	case "dubbo":
 		if len(f) >= 17 {
 			fields = []lenField{{12, 4, "dataLen"}, {16, 1, "hessianStringLen"}, {2, 1, "flag"}}
